@@ -50,12 +50,15 @@ pub enum Class {
     BlockSizeZero,
     /// --glob given and one "pattern" is a literal name that does not exist, among valid ones
     MissingSourceViaGlob,
+    /// a source given as dir/. (merged into the destination itself) brings an entry that another source maps to
+    /// the same path: xcp -r vd/. sub/inner d  (both give d/inner)
+    OverlapViaContentsForm,
 }
 const CLASSES: &[Class] = &[
     Class::NoArgs, Class::SinglePath, Class::MissingSource, Class::DirWithoutRecursive, Class::MultiToNonDir, Class::DirOntoFile, Class::SameAsDest, Class::SameAsDestBasename,
     Class::ForceNoClobber, Class::BadDriver, Class::BadReflink, Class::BadBackup, Class::BadBlockSize, Class::BadWorkers, Class::UnknownFlag, Class::BadGlob,
     Class::SameViaSymlink, Class::SameViaHardlink, Class::SameViaSpelling, Class::MultiViaGlobToNonDir, Class::DuplicateTargets,
-    Class::SameDirViaSpelling, Class::OwnDirAmongValid, Class::DirOntoFileMapped, Class::BlockSizeZero, Class::MissingSourceViaGlob,
+    Class::SameDirViaSpelling, Class::OwnDirAmongValid, Class::DirOntoFileMapped, Class::BlockSizeZero, Class::MissingSourceViaGlob, Class::OverlapViaContentsForm,
 ];
 
 #[derive(Clone, Debug, Serialize, Deserialize)]
@@ -95,6 +98,7 @@ pub fn build(c: &Case) -> (Vec<Ent>, Vec<Vec<u8>>, u8) {
         Class::DirWithoutRecursive | Class::DuplicateTargets => ds = 2 + ds % 2, // a directory, so that only the missing -r is wrong
         Class::MissingSource if c.nvalid >= 1 => ds = 2 + ds % 2,
         Class::MissingSourceViaGlob => ds = 2 + ds % 2,
+        Class::OverlapViaContentsForm => ds = 2,
         Class::DirOntoFileMapped => ds = 2,
         _ => {}
     }
@@ -303,6 +307,35 @@ pub fn build(c: &Case) -> (Vec<Ent>, Vec<Vec<u8>>, u8) {
             let p = std::cmp::min(pos, valid.len());
             valid.insert(p, s(if c.variant & 2 != 0 { "no/such/file" } else { "nonexistent" }));
             paths = valid;
+            paths.push(s("d"));
+        }
+        Class::OverlapViaContentsForm => {
+            recursive = true;
+            match c.variant % 3 {
+                0 => {
+                    // a file of the same name as an entry of the merged directory
+                    ents.push(Ent::file(b"sub/inner", Content::data(70000, 8)));
+                    paths = vec![s("vd/."), s("sub/inner")];
+                }
+                1 => {
+                    // two merged directories with a common entry
+                    ents.push(Ent::dir(b"ve"));
+                    ents.push(Ent::file(b"ve/inner", Content::data(9, 8)));
+                    ents.push(Ent::file(b"ve/other", Content::data(9, 9)));
+                    paths = vec![s("vd/."), s("ve/.")];
+                }
+                _ => {
+                    ents.push(Ent::file(b"sub/inner", Content::data(5, 8)));
+                    paths = vec![s("sub/inner"), s("vd/sub2/..")];
+                    ents.push(Ent::dir(b"vd/sub2"));
+                }
+            }
+            if c.pos % 2 == 1 {
+                paths.reverse();
+            }
+            if nvalid > 0 {
+                paths.insert(0, s("v1"));
+            }
             paths.push(s("d"));
         }
         Class::BadGlob => {
